@@ -26,8 +26,9 @@ ASSUMPTIONS = [
     'integers are unbounded (no 64-bit overflow), strings are code point lists compared by code point (binary collation), no floats',
     'division or modulo by zero is outside the statement (Python raises)',
     'and / or results are read as truth values (Python returns an operand; Pony a boolean): a selected `a and b` over non-boolean operands is outside the fragment',
-    'outside the theorem, covered by the differential search only: startswith / endswith / `in` on strings (LIKE), upper / lower, slices (C25), between, comparison '
-    'of conditions; not covered at all here: joins, attribute paths through relationships, subqueries, aggregates, GROUP BY, ordering, dates, Decimal, float, JSON, '
+    'startswith / endswith / `in` / `not in` on strings have their own model, theorem (C01_like: any string needle - literal, parameter, attribute, expression - '
+    'and haystack, non-NULL) and ties (Model/C01Like.v); outside the theorems, covered by the differential search only: upper / lower, between, comparison of '
+    'conditions, NULL operands of the LIKE family; slices: C25; not covered at all here: joins, attribute paths through relationships, subqueries, aggregates, GROUP BY, ordering, dates, Decimal, float, JSON, '
     'arrays, hybrid methods, lambdas / generators (decompiler: C03), row decoding of entities',
 ]
 RULE = ('structural: all 1330 depth<=2 expressions over a 14-leaf alphabet (sampled in the quick tier) + sampled depth-3 combinations + seeded random typed '
@@ -35,8 +36,8 @@ RULE = ('structural: all 1330 depth<=2 expressions over a 14-leaf alphabet (samp
         'table (None / negative / zero / positive, empty / non-empty); non-trivial = an expression with at least one operator whose translation was compared; '
         'distinct = distinct (provider, mode, query text)')
 
-QUICK = dict(n_random=240, n_enum=300, n_depth3=60, sem_random=90, sem_enum=110, sem_depth3=30, rows=6, search_random=260, search_ext=160)
-THOROUGH = dict(n_random=2500, n_enum=1330, n_depth3=500, sem_random=600, sem_enum=700, sem_depth3=200, rows=14, search_random=4000, search_ext=3000)
+QUICK = dict(like_random=60, n_random=240, n_enum=300, n_depth3=60, sem_random=90, sem_enum=110, sem_depth3=30, rows=6, search_random=260, search_ext=160)
+THOROUGH = dict(like_random=600, n_random=2500, n_enum=1330, n_depth3=500, sem_random=600, sem_enum=700, sem_depth3=200, rows=14, search_random=4000, search_ext=3000)
 
 
 def sizes(ctx, deep=False):
@@ -81,6 +82,17 @@ def correspondence(ctx):
     dist['reference'] = r_dist
     dist['sqlite_version'] = __import__('sqlite3').sqlite_version
 
+    # (4) the LIKE family: structural tie of StringMixin._like, matcher vs real SQLite, py_like vs Python
+    like_real = H.RealDb(L.like_rows())
+    k_exprs, k_meta, k_dis, k_nontriv, k_dist = H.like_cases(ctx, H.like_inputs(ctx, z.get('like_random', 60)), like_real)
+    disagreements += k_dis
+    dist['like'] = k_dist
+    k_bad = H.run_bools(ctx, k_exprs, name='like', prelude=like_real.prelude())
+    for i in k_bad[:10]:
+        m = k_meta[i]
+        disagreements.append({'what': 'model and implementation differ (%s): %s' % (m['mode'], m.get('query')), 'input': {k: v for k, v in m.items() if k not in ('impl',)},
+                              'impl': m.get('impl', m.get('impl_kept')), 'coq_case': k_exprs[i][:1500]})
+
     exprs = s_exprs + m_exprs + r_exprs
     meta = s_meta + m_meta + r_meta
     bad = H.run_bools(ctx, exprs, prelude=real.prelude())
@@ -92,8 +104,8 @@ def correspondence(ctx):
     if s_meta: samples.append({'structural': s_meta[len(s_meta) // 2]})
     if m_meta: samples.append({'semantic': m_meta[len(m_meta) // 2]})
     samples.append({'coq_case': exprs[len(exprs) // 3][:600]})
-    dist['cases'] = {'structural': len(s_exprs), 'semantic': len(m_exprs), 'reference': len(r_exprs)}
-    return Corr(cases=len(exprs), nontrivial=len(s_nontriv) + len(m_nontriv), disagreements=disagreements, samples=samples, distribution=dist,
+    dist['cases'] = {'structural': len(s_exprs), 'semantic': len(m_exprs), 'reference': len(r_exprs), 'like': len(k_exprs)}
+    return Corr(cases=len(exprs) + len(k_exprs), nontrivial=len(s_nontriv) + len(m_nontriv) + len(k_nontriv), disagreements=disagreements, samples=samples, distribution=dist,
                 note='every case is a boolean computed by vm_compute inside Coq from the model and the serialised implementation output')
 
 
@@ -116,8 +128,9 @@ def corpus_inputs():
 
 def search(ctx, deep):
     z = sizes(ctx, deep)
-    rows = table_rows(ctx, z['rows'] if deep else 10)
+    rows = table_rows(ctx, z['rows'] if deep else 10) + L.like_rows()
     inputs = corpus_inputs()
+    inputs += [(e, p, 'like-sweep') for e, p in L.like_sweep()]
     inputs += H.generated_exprs(ctx, z['search_random'], 400 if not deep else 1330, 60 if not deep else 600)
     # the search-only node kinds (LIKE family, upper / lower, slices, between, comparisons of conditions)
     g = L.Gen(ctx.rng, ext=True)
